@@ -2,6 +2,7 @@ prop("C10", pkg="c10",
      rule="rapid state machine (t.Repeat) over histories of: Parse with 11 ParseFlags sets into 10 target types rich in strings / Numbers / RawMessages / []byte / "
           "map keys / interfaces (type-directed and generic documents, some with strings beyond 4 KiB and 32 KiB); Decoder.Decode of several values from a chunked "
           "reader (with and without ZeroCopy); Tokenizer walks keeping every Value and String(); Marshal, Encoder.Encode, Append into a small-capacity prefix; "
+          "marshal-sized (outputs of exactly 2^k, 2^k +- 1 / 2 and random sizes: a result that fills the pooled buffer to the last byte); "
           "scribble (overwrite a previously lent input, including its spare capacity, with 0xFF); churn (1..12 rounds of Marshal/Unmarshal/Encoder/Tokenizer on "
           "large values, optionally also on a second goroutine). Invariant after every step: lent inputs (and their spare capacity) unchanged; copied results equal "
           "their snapshot forever and point into no lent buffer; zero-copy results equal their snapshot while their own input is intact and point only into their own "
